@@ -560,7 +560,20 @@ class SymNum(Sym):
         s._unsup("index")
 
     def __round__(s, n=None):
-        s._unsup("round")
+        """round(x) with python's round-half-to-even (ndigits not supported)"""
+        if n is not None:
+            s._unsup("round(ndigits)")
+        if z3.is_int(s.t):
+            return s
+        f = z3.ToInt(s.t + z3.Q(1, 2))  # floor(x + 1/2)
+        tie = z3.ToReal(f) == s.t + z3.Q(1, 2)
+        return SymNum(z3.If(z3.And(tie, f % 2 != 0), f - 1, f))
+
+    def truncated(s):
+        """int(x) semantics (truncation towards zero) as an integer-sorted symbol"""
+        if z3.is_int(s.t):
+            return s
+        return SymNum(z3.If(s.t >= 0, z3.ToInt(s.t), -z3.ToInt(-s.t)))
 
     def __trunc__(s):
         s._unsup("trunc")
